@@ -13,8 +13,9 @@ search_hpackdec(rep, tier, seed, reason=None)
     evaluated in Coq on the implementation's inputs and answers.  A history where the
     implementation accepted a block the reference rejects, produced different headers, a
     different table, or a table above the advertised limit is a real violation of C11
-    -> rep.violation("failing-input", shrunk history), unless its class is listed in
-    /verif/known_findings.json (then rep.known(...)).
+    -> rep.violation("failing-input", shrunk history), unless its class is one of the two known
+    findings of C11 listed in /verif/known_findings.json (KF-C11-1 size-update-after-field-across-
+    fragments, KF-C11-3 required-size-update-not-enforced): then rep.known(...).
 """
 import json
 import os
@@ -70,9 +71,21 @@ ORACLE_CLASSES = {
     1: "accepts-block-rfc-rejects",
     2: "different-header-list",
     3: "different-dynamic-table",
-    4: "table-above-advertised-limit",
-    5: "required-size-update-missing",
+    4: "required-size-update-not-enforced",          # table above the advertised limit   (KF-C11-3)
+    5: "required-size-update-not-enforced",          # required size update missing       (KF-C11-3)
+    6: "size-update-after-field-across-fragments",   # only the 6.3 placement rule objects (KF-C11-1)
 }
+
+# names of the theorems in coq/Properties/C11_hpack.v (Print Assumptions audit by the C11 plugin)
+THEOREMS = [
+    "C11_gen_static_is_rfc", "C11_static_index_inverse", "C11_ref_decode_block_spec",
+    "C11_decode_int_spec", "C11_decode_int_need_more", "C11_decode_int_truncated",
+    "C11_decode_int_overflow", "C11_decode_int_bound", "C11_decode_int_encode_int",
+    "C11_decode_no_fuel", "C11_hpack_decode_sound", "C11_hpack_decode_sound_rfc_except_known",
+    "C11_hpack_decode_complete_modulo_validation", "C11_hpack_table_bounded",
+    "C11_hpack_table_within_limit_except_known", "C11_hpack_chunking_except_known",
+    "C11_hpack_chunking_by_verdict", "C11_known_1_refuted", "C11_known_3_refuted",
+]
 
 
 # ------------------------------------------------------------------------------------------
@@ -401,7 +414,7 @@ def judge(rep, c, code, what, budget):
     cls = ORACLE_CLASSES.get(code, "oracle-%d" % code)
     kn = known_classes()
     if cls in kn:
-        rep.known("C11/%s: %s" % (cls, kn[cls].get("title", "")))
+        rep.known("%s property=C11 class=%s: %s" % (kn[cls].get("id", "KF-C11"), cls, kn[cls].get("what", "")[:160]))
         return True
     small = shrink(c, oracle_objects, budget=budget)
     sc = replay([small])
